@@ -8,6 +8,7 @@ import JrpcVerif.Driver.TextFamily
 import JrpcVerif.Driver.RegistryFamily
 import JrpcVerif.Driver.ParamsFamily
 import JrpcVerif.Driver.BuildFamily
+import JrpcVerif.Driver.MacroFamily
 import JrpcVerif.Driver.ServerFamily
 import JrpcVerif.Driver.HostFilterFamily
 import JrpcVerif.Driver.ClientFamily
@@ -33,6 +34,9 @@ def step (st : St) (line : String) : St × String :=
   | some out => (st, out)
   | none =>
   match buildVerb ws with
+  | some out => (st, out)
+  | none =>
+  match macroVerb ws with
   | some out => (st, out)
   | none =>
   match serverVerb st.server ws with
